@@ -232,17 +232,29 @@ def run_lines(binary, mode, lines, timeout=1800):
 
 
 def run_pair(ctx, tvh, mode, cases):
-    """run implementation and model on the same cases; returns (impl_out, model_out)"""
-    rc1, impl, e1 = run_lines(tvh, mode, cases)
+    """run implementation and model on the same cases; returns (impl_out, model_out).
+    If the harness process dies (abort, stack overflow) the killing case is marked CRASH and the
+    rest of the cases are run in a fresh process."""
+    impl = []
+    start = 0
+    crashes = []
+    while start < len(cases):
+        rc1, out, e1 = run_lines(tvh, mode, cases[start:])
+        impl += out
+        if rc1 == 0 and len(impl) == len(cases):
+            break
+        if len(impl) >= len(cases):
+            break
+        bad = cases[len(impl)]
+        crashes.append((bad, e1[-300:]))
+        impl.append("CRASH")
+        start = len(impl)
+        if len(crashes) > 200:
+            impl += ["CRASH"] * (len(cases) - len(impl))
+            break
+    if crashes:
+        ctx.oblige(f"harness {mode}: every case returns", False, f"{len(crashes)} crashing cases; first: {crashes[0][0][:200]} {crashes[0][1]}")
     rc2, model, e2 = run_lines(driver_path(), mode, cases)
-    ok = (rc1 == 0 and len(impl) == len(cases))
-    if not ok:
-        # the harness died (abort / stack overflow): bisect to the killing case
-        bad = bisect_crash(tvh, mode, cases)
-        ctx.oblige(f"harness {mode}: every case returns", False, f"rc={rc1} stderr={e1[-300:]} crashing case={bad}")
-        if bad is not None:
-            ctx.violation(f"implementation aborted on case `{bad[:200]}`", {"mode": mode, "case": bad, "witness": bad, "stderr": e1[-500:]})
-        impl = impl + ["CRASH"] * (len(cases) - len(impl))
     if not (rc2 == 0 and len(model) == len(cases)):
         ctx.oblige(f"driver {mode}: every case returns", False, f"rc={rc2} {e2[-300:]} lines={len(model)}/{len(cases)}")
         model = model + ["DRIVER-CRASH"] * (len(cases) - len(model))
